@@ -24,7 +24,20 @@ def machine_run(pid, tier, seed):
     gh = vf.build_gh("o1")
     results, violations = props_machine.run_scenarios(pid, scenarios, seed, gh)
     cov = props_machine.coverage_of(results, scenarios)
+    if pid in suite.GROUPS:
+        _add_suite(pid, violations, cov)
     return violations, cov, MACHINE_ASSUMPTIONS
+
+
+def _add_suite(pid, violations, cov):
+    """the repository's own test programs, run against an instrumented copy of the working tree's
+    headers: every mutator call they make is validated by TLC as a step of the specification"""
+    sv, scov = suite.run(pid)
+    violations += sv
+    cov["states"] = cov.get("states", 0) + scov.pop("states")
+    cov["traces_validated_against_impl"] = cov.get("traces_validated_against_impl", 0) + scov["suite_programs_run"]
+    cov["trace_events_validated"] = cov.get("trace_events_validated", 0) + scov["suite_distinct_events_validated"]
+    cov.update(scov)
 
 
 _MACHINE_TEXT = {
@@ -41,7 +54,7 @@ for _pid in ("C01", "C02", "C03", "C04", "C05", "C16"):
         "note": "exhaustive only within the scenario constants (vertices, label/multiplicity/weight alphabets, copies); "
                 "trusted base: TLC, the projection code of harness/objects.hpp, nlohmann-json; neighbour order abstracted to bags; "
                 "integer weights only (no rounding-error clause); label types sampled by 7 kinds",
-        "technique": "TLA+ state machine + ghost model checked by TLC; state-graph replay on the real classes; TLC trace validation of recorded executions",
+        "technique": "TLA+ state machine + ghost model checked by TLC; state-graph replay on the real classes; TLC trace validation of recorded executions, incl. every mutator call of the repository's own test programs (instrumented copy of the headers)",
     }
 
 def c06_run(pid, tier, seed):
@@ -90,6 +103,7 @@ PROPERTIES["C06"] = {
 }
 
 import props_algo  # noqa: E402
+import suite  # noqa: E402
 
 _ALGO_NOTE = ("exhaustive only up to the stated input sizes; trusted base: TLC, harness/algo*.hpp (builds the real input "
               "graphs from the specification's values and encodes results), nlohmann-json; label types sampled by 7 kinds")
@@ -174,6 +188,7 @@ def c07_run(pid, tier, seed):
         cs.name += "-asan"
     ares_a, v = props_algo.run_all(pid, sets_a, [], seed, ah_asan, validate=False)
     violations += v
+    _add_suite(pid, violations, mcov)
     algo_cases = sum((r.get("ah") or {}).get("cases", 0) for r in ares)
     algo_runs = sum((r.get("ah") or {}).get("runs", 0) for r in ares + ares_a)
     rejected_transitions = mcov["rejected_call_transitions_executed"]
@@ -197,6 +212,8 @@ def c07_run(pid, tier, seed):
         "classes_and_label_kinds": mcov["classes_and_label_kinds"],
         "calls_exercised": mcov["calls_exercised"],
         "builds": ["g++ -O1", "clang++ -O1 -fsanitize=address,undefined"],
+        "suite_rejected_calls_validated": mcov.get("suite_rejected_calls", 0),
+        "suite_programs_run": mcov.get("suite_programs_run", 0),
         "scenarios": mcov["scenarios"] + acov["scenarios"],
         "exhaustive": True,
     }
@@ -695,6 +712,11 @@ def replay(pid, path):
     if kind == "tlc":
         print(open(r["log"]).read()[-20000:])
         return 1
+    if kind == "suite-event":
+        x = suite.explain(path)
+        print(json.dumps(x, indent=1)[:20000])
+        print("REPLAY: TLC (SuiteTrace.tla) " + ("accepts" if x.get("accepted") else "rejects") + " this event")
+        return 0 if x.get("accepted") else 1
     print(json.dumps(r, indent=1)[:20000])
     return 1
 
